@@ -15,6 +15,7 @@ import (
 	"sort"
 	"strings"
 	"time"
+	_ "time/tzdata" // the command timestamps are drawn in several zones, including ones with daylight saving
 
 	"github.com/google/gce-tcb-verifier/rotate"
 	styp "github.com/google/gce-tcb-verifier/sign/types"
@@ -166,10 +167,29 @@ func run(c *core.Ctx) {
 		h := &hist{c: c, idx: hi, gname: fmt.Sprintf("history#%d %s", hi, a.Name()), a: a}
 		c.Begin(hi, h.gname, "bootstrap/rotate/wipeout", nil)
 		now := t0
+		// the operator's clock may be in any zone; lifetimes are absolute durations whatever the zone
+		zoneName := []string{"UTC", "America/New_York", "Europe/Berlin", "Australia/Lord_Howe", "Asia/Kolkata"}[r.IntN(5)]
+		zone, zerr := time.LoadLocation(zoneName)
+		if zerr != nil {
+			zone = time.UTC
+		}
+		var usedSerials []*big.Int
 		ncmd := c.N(8, 12)
 		var cmds []string
 		for step := 0; step < ncmd; step++ {
-			now = now.Add(time.Duration(1+r.IntN(400)) * day).Add(time.Duration(r.IntN(86400)) * time.Second)
+			now = now.Add(time.Duration(1+r.IntN(400)) * day).Add(time.Duration(r.IntN(86400)) * time.Second).In(zone)
+			if r.IntN(3) == 0 {
+				// land near the zone's next daylight-saving switch (calendar arithmetic and absolute durations differ there)
+				for d := 0; d < 400; d++ {
+					t := now.Add(time.Duration(d) * day)
+					_, o1 := t.Zone()
+					_, o2 := t.Add(day).Zone()
+					if o1 != o2 {
+						now = t.Add(time.Duration(r.IntN(5)-2) * day).Add(time.Duration(r.IntN(7200)) * time.Second)
+						break
+					}
+				}
+			}
 			overwrite := r.IntN(3) == 0
 			// keep-going turns refusals to replace an object into silent skips, so without overwrite its outcome over
 			// existing objects is "nothing certified" by design; it is generated together with overwrite only
@@ -187,6 +207,9 @@ func run(c *core.Ctx) {
 				if r.IntN(3) == 0 {
 					bc.RootKeySerial, bc.SigningKeySerial = big.NewInt(int64(1+r.IntN(500))), big.NewInt(int64(1000+r.IntN(500)))
 					kind = "bootstrap(serials)"
+					if r.IntN(3) == 0 { // serial numbers are arbitrary-precision: beyond 64 bits
+						bc.SigningKeySerial = new(big.Int).Add(new(big.Int).Lsh(big.NewInt(int64(1+r.IntN(1000))), uint(63+r.IntN(40))), big.NewInt(int64(r.IntN(1000))))
+					}
 				}
 				if r.IntN(4) == 0 {
 					bc.SigningKeyCommonName = fmt.Sprintf("signer-%d", step)
@@ -199,6 +222,9 @@ func run(c *core.Ctx) {
 					what := fmt.Sprintf("after %s at step %d", kind, step)
 					h.checkRoot(st.RootCert, now, what)
 					h.checkSigning(st.PrimaryCert, st.RootCert, now, bc.SigningKeySerial, what)
+					if bc.SigningKeyCommonName == "signingKeyCn" {
+						usedSerials = append(usedSerials, bc.SigningKeySerial)
+					}
 				}
 			case x < 8:
 				kind = "rotate"
@@ -207,12 +233,21 @@ func run(c *core.Ctx) {
 				if h.ep.active && h.ep.lastSerial != nil {
 					want = new(big.Int).Add(h.ep.lastSerial, big.NewInt(1))
 				}
-				if r.IntN(4) == 0 {
+				switch x := r.IntN(12); {
+				case x < 2:
 					skc.SigningKeySerial = big.NewInt(int64(5000 + 100*step + r.IntN(50)))
-					want = skc.SigningKeySerial
 					kind = "rotate(serial-override)"
+				case x == 2: // beyond 64 bits
+					skc.SigningKeySerial = new(big.Int).Add(new(big.Int).Lsh(big.NewInt(int64(1+r.IntN(1000))), uint(63+r.IntN(40))), big.NewInt(int64(r.IntN(1000))))
+					kind = "rotate(serial-override>64bit)"
+				case x == 3 && len(usedSerials) > 0: // a serial (hence a certificate object name) that is already taken in this authority
+					skc.SigningKeySerial = new(big.Int).Set(usedSerials[r.IntN(len(usedSerials))])
+					kind = "rotate(serial-override=existing)"
 				}
-				if r.IntN(4) == 0 {
+				if skc.SigningKeySerial != nil {
+					want = skc.SigningKeySerial
+				}
+				if kind != "rotate(serial-override=existing)" && r.IntN(4) == 0 {
 					skc.SigningKeyCommonName = fmt.Sprintf("signer-%d", step)
 				}
 				prev := a.Observe()
@@ -233,6 +268,9 @@ func run(c *core.Ctx) {
 						if st.PrimaryCert != nil {
 							if s, ok := new(big.Int).SetString(st.PrimaryCert.Subject.SerialNumber, 10); ok {
 								h.ep.lastSerial = s
+								if st.PrimaryCert.Subject.CommonName == "signingKeyCn" {
+									usedSerials = append(usedSerials, s)
+								}
 							}
 						}
 					} else {
